@@ -86,8 +86,7 @@ func VerifC15Upload() {
 	nFiles := 1
 	maxSize := 3
 	if vrt_Tier() > 0 {
-		nFiles = 1 + vrt_Choose("files", 2)
-		maxSize = 3
+		maxSize = 4 // (two files in one session: VerifC16Resupply; here they do not finish within the budget)
 	}
 	phone := vrt_Bytes("phone", 6)
 	vNoEsc(phone)
